@@ -1,5 +1,6 @@
 use crate::engine::Ctx;
 
+pub mod c01;
 pub mod c03;
 pub mod c04;
 pub mod c06;
@@ -10,6 +11,7 @@ pub mod c11;
 pub mod c12;
 
 pub const TABLE: &[(&str, fn(&mut Ctx))] = &[
+	("C01", c01::run),
 	("C03", c03::run),
 	("C04", c04::run),
 	("C06", c06::run),
